@@ -201,10 +201,10 @@ def run(tier):
         seen.add(k)
         # reproduce: run the same configuration again, up to 5 fresh processes (schedules are deterministic at hook granularity; stress is not)
         again = False
-        for attempt in range(5):
+        for attempt in range(10 if why.startswith("differs") else 5):
             if kind == "stress":
                 name, jobs, _, g, procs = traces[idx]
-                evs2, _ = run_stress(chk, binary, jobs, g, procs, 2, vlib.seed() * 977 + attempt, "re")
+                evs2, _ = run_stress(chk, binary, jobs, g, procs, 2 + attempt // 3, vlib.seed() * 977 + attempt, "re")
                 replay_obj = dict(kind="stress", jobs=jobs, g=g, gomaxprocs=procs, expect=why)
             else:
                 sched = sched_traces[idx - len(traces)][0]
